@@ -336,6 +336,8 @@ static void
 http_sconn_error(http_sconn *sc, nng_http_status err)
 {
 	nng_http_set_status(sc->conn, err, NULL);
+	// (the response is ours, whatever version the request claimed)
+	nni_http_set_version(sc->conn, NNG_HTTP_VERSION_1_1);
 	if (nni_http_server_error(sc->server, sc->conn) != 0) {
 		http_sconn_close(sc);
 		return;
